@@ -477,7 +477,7 @@ def model_export_to_file(f, model=None, repo=None):
                             if list_obj is not None:
                                 if type(list_obj) in PRIMITIVE_PYTHON_TYPES:
                                     f.write(
-                                        f'{id(obj)} -> "{list_obj}:{type(list_obj).__name__}"'  # noqa
+                                        f'{id(obj)} -> "{dot_escape(str(list_obj))}:{type(list_obj).__name__}"'  # noqa
                                         f' [label="{attr_name}:{idx}" {endmark}]\n'
                                     )
                                 else:
